@@ -38,12 +38,17 @@ def pwl_fn_events(tf, tfl, ctx, rng, n, with_layer=True):
   from tensorflow_lattice.python import conditional_pwl_calibration as cpc
   evs = []
   combos = list(itertools.product(["none", "increasing"], [False, True], [False, True], [False, True], [None, 1.25], [None, 0.5]))
-  for j in range(n):
-    mono, cmin, cmax, cyc, miss_in, miss_out = combos[j % len(combos)]
+  # the inputs of the two listed findings are part of every run (findings/known_findings.json: C15-*)
+  pinned = [[0.0, -40.0], [0.0, 200.0]]
+  for j in range(n + len(pinned)):
+    pin = pinned[j - n] if j >= n else None
+    mono, cmin, cmax, cyc, miss_in, miss_out = combos[j % len(combos)] if pin is None else ("increasing", True, True, False, None, None)
     imin = Fraction(int(rng.integers(-8, 4)), 4)
     imax = imin + Fraction(int(rng.integers(1, 16)), 4)
     omin = Fraction(int(rng.integers(-8, 4)), 4)
     omax = omin + Fraction(int(rng.integers(1, 16)), 4)
+    if pin is not None:
+      imin, imax, omin, omax = Fraction(0), Fraction(1), Fraction(0), Fraction(1)
     if miss_in is not None:
       miss_in = float(imin) + 0.25
     if miss_out is not None:
@@ -51,7 +56,7 @@ def pwl_fn_events(tf, tfl, ctx, rng, n, with_layer=True):
     c = form(mono, cmin, cmax, cyc, miss_in, miss_out, imin, imax, omin, omax)
     if not valid(c):
       continue
-    K = int(rng.integers(2, 7))
+    K = int(rng.integers(2, 7)) if pin is None else 4
     psize = param_size(c, K)
     if psize < 1:
       continue
@@ -61,7 +66,10 @@ def pwl_fn_events(tf, tfl, ctx, rng, n, with_layer=True):
     kin = rng.uniform(-mag, mag, size=(B, units, K - 2)).astype(np.float32)
     kout = rng.uniform(-mag, mag, size=(B, units, psize)).astype(np.float32)
     # the same parameters for every example, so that examples differ in x only (pairs for monotonicity)
-    if j % 3 != 2 and K >= 4:
+    if pin is not None:
+      kin[:, :, :] = np.asarray(pin, dtype=np.float32)
+      kout[:, :, :] = np.asarray([1.0, 2.0], dtype=np.float32)
+    elif j % 3 != 2 and K >= 4:
       # one interior segment collapsed to length exactly 0 (softmax underflow), everything else ordinary: the function
       # has a jump there, and every input to its right must still see the full increment of that segment
       kin = rng.uniform(-1, 1, size=kin.shape).astype(np.float32)
@@ -99,6 +107,9 @@ def pwl_fn_events(tf, tfl, ctx, rng, n, with_layer=True):
               # the two ways the known finding shows: an end segment below resolution (the clamp / cyclic end value
               # is not reached) and a probe sitting on the left end of a collapsed segment (0/0)
               "end_segment_sub_resolution": bool(fin and (float(dl[0]) < res or float(dl[-1]) < res)),
+              # the end value is computed as kernel sum weighted by (x - keypoint) / length: the float32 rounding of the
+              # keypoint is amplified by spacing / length, e.g. 0.3% of the last increment at 56 spacings, 4% at 12
+              "end_segment_near_resolution": bool(fin and (float(dl[0]) < 16 * res or float(dl[-1]) < 16 * res)),
               "probe_on_collapsed_keypoint": bool(fin and any(float(dl[i]) < res and np.any(np.abs(xs - kps[i]) <= res)
                                                              for i in range(len(dl))))}
       layer_out = []
